@@ -9,7 +9,7 @@ Deciding monitors (postconditions on the real public functions; oracle = irisver
 Workload-level (metamorphic / directed) checks, also deciding:
   hpf_line        data on a straight line (with holes, output span beyond the data) => trend == the line everywhere
   hpf_span_clips  hpf(x, span=S) == hpf(x) on S & span(x)
-Diagnostic only: daqp.solve exit flags (a reported solver failure makes the lonf verdict inconclusive).
+Diagnostic: daqp.solve exit flags are recorded; lonf() does not surface them, so a result returned after a failed solve is judged like any other.
 
 What the hpf oracle asserts, per variant, for a call inside the quantifier (finite data, >= enough observations and
 constraints for a unique optimum, lambda > 0 finite, positive data/constraints when log=True, contiguous output span,
@@ -642,8 +642,10 @@ def _check_lonf(c, xs, call, span_serials, trend_snap, gap_snap, flags):
     if nvt != nv or nvg != nv:
         c.violation("lonf:variants-dropped", f"input has {nv} variants, returned trend has {nvt} and gap has {nvg}")
     if any(f is None or f < 1 for f in flags):
-        c.inconc("lonf:solver-reported-failure")
-        return
+        # the QP solver's own exit flag says "not solved", but lonf() returned a result without raising or warning: the caller
+        # is given that result as THE trend, so it is judged like any other (a non-optimal trend is then a violation whose key
+        # carries the ignored flag). On the unchanged tree the flag never fails on the generated inputs (counted in notes).
+        c.note("lonf:daqp-exitflag-below-1-but-lonf-returned-normally")
     for v in range(min(nv, nvt, nvg)):
         y = xs[1][s0 - xs[0]:s1 - xs[0] + 1, v]
         t = _col_on(trend_snap, v, s0, s1)
